@@ -17,6 +17,9 @@ pub type Snapshot = Vec<(Vec<u8>, Vec<u8>)>;
 
 pub const OWNER: &str = "owner";
 pub const DENOMS: [&str; 6] = ["ua", "uab", "uabc", "ub", "ibc/x1", "ubcd"];
+/// the address the first cw20 token of every world receives (factory, router and proxy are contract0..2);
+/// asserted in `World::build`. Some worlds hold a native denom spelled exactly like it.
+pub const FIRST_TOKEN_ADDR: &str = "contract3";
 
 // ------------------------------------------------------------------------------------------------
 // the proxy ("rogue") contract: forwards any CosmosMsg it is given; answers cw20-style queries
@@ -768,6 +771,9 @@ impl World {
                     None,
                 )
                 .map_err(e)?;
+            if tokens.is_empty() && addr.as_str() != FIRST_TOKEN_ADDR {
+                return Err(format!("first token address is {} and not {}", addr, FIRST_TOKEN_ADDR));
+            }
             tokens.push(TokenRec { addr, decimals: *dec });
         }
         let mut w = World { app, codes, cfg: cfg.clone(), owner, factory, router, proxy, natives, tokens, pairs: vec![], actors, bystanders, native_decimals_now: cfg.native_decimals.clone() };
